@@ -84,7 +84,10 @@ Step1 ==
               LET o == <<"p", e.fd>>
                   inOwn(x)  == x \in DOMAIN own /\ own[x] = o
                   inDy(x)   == x \in DOMAIN dying /\ dying[x] = o
-                  v1 == Check((inOwn(e.fd) \/ inDy(e.fd)) /\ (inOwn(e.n) \/ inDy(e.n)), "CloseOwnedOnce", <<"poller", e.fd, e.n>>, viols)
+                  \* (a poller whose construction failed after epoll_create1 -- no eventfd, n < 0 -- was never announced:
+                  \* closing its epoll descriptor is closing a descriptor the framework made and nobody else has)
+                  halfBuilt == e.n < 0 /\ e.fd \notin DOMAIN own /\ e.fd \notin foreign
+                  v1 == Check(halfBuilt \/ ((inOwn(e.fd) \/ inDy(e.fd)) /\ (inOwn(e.n) \/ inDy(e.n))), "CloseOwnedOnce", <<"poller", e.fd, e.n>>, viols)
                   o1 == IF inDy(e.fd) THEN own ELSE Del(own, e.fd)
                   o2 == IF inDy(e.n) THEN o1 ELSE Del(o1, e.n)
                   d1 == IF inDy(e.fd) THEN Del(dying, e.fd) ELSE dying
